@@ -1190,7 +1190,9 @@ class _RedTable(Contract):
 
     def inv(self, I, env, k):
         st = self._cur
-        ln = env.lookup('line') if env.has('line') else None
+        if not env.has('line'):
+            raise Unsupported('the reader is not written as `while line: ... line = next(handle, None)` (this contract follows that shape)')
+        ln = env.lookup('line')
         ok = isinstance(ln, T14.TLine) and not ln.stripped and T14.same(ln.k, T14.zz(k) + 1) and T14.same(st.tab.file.pos, T14.zz(k) + 2)
         return [('line-is-the-next-unread-line-of-the-file-after-the-header', z3.BoolVal(bool(ok)))]
 
